@@ -215,10 +215,12 @@ def replay_e1(history):
             "observations": open(os.path.join(d, "observations.txt")).read().strip()}
 
 
-def shrink_e1(history, props, max_rounds=60):
+def shrink_e1(history, props, max_rounds=60, budget_s=300):
     """delta debugging on the requests of a failing history: any sub-sequence is a legitimate input (requests the
     builder refuses are refused), so a candidate is kept whenever one of the property oracles still fails on it.
-    One bdiff run evaluates all the candidates of a round."""
+    One bdiff run evaluates all the candidates of a round.  The effort is bounded in rounds, in seconds and in the work
+    of one round (a failing history of a thousand requests is reported as it is rather than shrunk for an hour)."""
+    t_start = time.time()
     ok, o = harness_build(["bdiff"])
     if not ok:
         return history, None
@@ -242,11 +244,14 @@ def shrink_e1(history, props, max_rounds=60):
     best = first
     n = 2
     rounds = 0
-    while len(toks) >= 2 and rounds < max_rounds:
+    while len(toks) >= 2 and rounds < max_rounds and time.time() - t_start < budget_s:
         rounds += 1
         chunk = max(1, -(-len(toks) // n))
         cands = [toks[:i] + toks[i + chunk:] for i in range(0, len(toks), chunk)]
         cands = [c for c in cands if c]
+        if sum(len(c) for c in cands) > 40000:
+            # too much work for one round: try the first candidates only
+            cands = cands[:max(2, 40000 // max(1, len(toks)))]
         res = failing(cands)
         hit = next((k for k, r in enumerate(res) if r is not None), None)
         if hit is not None:
